@@ -81,6 +81,11 @@ var longMsgs = []string{
 	"ACK sip:a SIP/2.0\r\nTo: \"never closed\r\n\r\n",
 }
 
+// long tokens: 300-byte method and URI, 260-byte header name, 300-byte value, 256-byte Call-ID, 255/256-byte tag and
+// display name (explored under two configurations only: the path is ~2700 nodes long)
+var longTokenMsg = strings.Repeat("M", 300) + " sip:" + strings.Repeat("u", 300) + "@h SIP/2.0\r\n" + strings.Repeat("N", 260) + ": " + strings.Repeat("v", 300) + "\r\nCall-ID: " + strings.Repeat("c", 256) +
+	"\r\nFrom: \"" + strings.Repeat("d", 254) + "\" <sip:a@b>;tag=" + strings.Repeat("t", 255) + "\r\nTo: " + strings.Repeat("D", 256) + " <sip:c@d>;tag=" + strings.Repeat("T", 256) + ";" + strings.Repeat("p", 300) + "=" + strings.Repeat("q", 300) + "\r\nl: 0\r\n\r\n"
+
 func msgCfgs(r *Run, full bool) []Cfg {
 	var cfgs []Cfg
 	hc := []int{-1, 0, 1, 2, 10, 11}
@@ -126,6 +131,7 @@ func msgSpaces(r *Run) []space {
 	}
 	full := msgCfgs(r, true)
 	red := msgCfgs(r, false)
+	ltok := space{name: "msg/long-tokens", gen: menuTrie{[][][]byte{{[]byte(longTokenMsg)}}}, cfgs: []Cfg{{HdrCap: -1, ValCap: -1}, {HdrCap: 1, ValCap: 0, Flags: 1, Offs: 3, Junk: "a"}}, finalFlags: noMore, beyondErr: 1, beyondOk: 1, split: 1}
 	if r.quick() {
 		// quick: offsets 0 only for the long messages, both offsets on the shallow trie
 		var f0 []Cfg
@@ -135,6 +141,7 @@ func msgSpaces(r *Run) []space {
 			}
 		}
 		sp := []space{
+			ltok,
 			{name: "msg/long", gen: unionTrie{longs}, cfgs: f0, finalFlags: noMore, beyondErr: 1, beyondOk: 1, split: 1},
 			{name: "msg/trie<=1hdr", gen: msgTrie{strs(fl), strs(hm), 1, strs(blankMenu), strs(bodyMenu)}, cfgs: full, finalFlags: noMore, beyondErr: 1, beyondOk: 1, split: 2},
 			{name: "msg/trie<=2hdr", gen: msgTrie{strs(fl[:2]), strs(hdrLineMenuQuick), 2, strs(blankMenu[:2]), strs(bodyMenu)}, cfgs: red, finalFlags: noMore, beyondErr: 1, beyondOk: 1, split: 2},
@@ -142,6 +149,7 @@ func msgSpaces(r *Run) []space {
 		return sp
 	}
 	return []space{
+		ltok,
 		{name: "msg/long", gen: unionTrie{longs}, cfgs: full, finalFlags: noMore, beyondErr: 1, beyondOk: 1, split: 1},
 		{name: "msg/trie<=1hdr", gen: msgTrie{strs(fl), strs(hm), 1, strs(blankMenu), strs(bodyMenu)}, cfgs: full, finalFlags: noMore, beyondErr: 1, beyondOk: 1, split: 2},
 		{name: "msg/trie<=2hdr", gen: msgTrie{strs(fl[:5]), strs(hm), 2, strs(blankMenu), strs(bodyMenu)}, cfgs: red, finalFlags: noMore, beyondErr: 1, beyondOk: 1, split: 2},
